@@ -11,6 +11,7 @@ import (
 	"fmt"
 	"io"
 	"math/big"
+	"sync"
 	"testing"
 
 	cose "github.com/veraison/go-cose"
@@ -38,6 +39,14 @@ func ecKeyOn(curve elliptic.Curve, seed string) *ecdsa.PrivateKey {
 	return refcose.ECPrivate(curve, []byte(seed))
 }
 
+var c17MultiPrime = sync.OnceValue(func() *rsa.PrivateKey {
+	k, err := rsa.GenerateMultiPrimeKey(refcose.NewEntropy([]byte("c17-multiprime")), 3, 2048) //nolint:staticcheck // deprecated, still a valid key shape
+	if err != nil {
+		panic(err)
+	}
+	return k
+})
+
 func c17Keys() []c17Key {
 	var ks []c17Key
 	for _, n := range []string{"rsa1024", "rsa2047", "rsa2048", "rsa3072", "rsa4096"} {
@@ -53,6 +62,8 @@ func c17Keys() []c17Key {
 		p := fab(bits)
 		ks = append(ks, c17Key{Name: fmt.Sprintf("rsa-modulus-%d-bits", bits), Pub: p, Family: "rsa", RSAOK: bits >= 2048})
 	}
+	// a multi-prime key (three factors): an RSA key of 2048 bits like any other
+	ks = append(ks, c17Key{Name: "rsa2048-three-primes", Pub: &c17MultiPrime().PublicKey, Priv: c17MultiPrime(), Family: "rsa", RSAOK: true})
 	// public exponents other than 65537: the statement restricts the modulus only
 	for _, e := range []int{3, 17, 65539, 1<<31 - 1} {
 		p := fab(2048)
